@@ -152,6 +152,118 @@ def a_slice(xs, n):
 def b_slice(xs, n):
     return xs[:n]
 
+_KINDS = {"a": _double, "b": _check}
+
+
+class _Box(NamedTuple):
+    lo: float
+    hi: float
+
+    @classmethod
+    def of(cls, pair):
+        return cls(pair[0], pair[1])
+
+    @property
+    def width(self):
+        return self.hi - self.lo
+
+
+def _windows(xs, k):
+    for x in xs:
+        if x is None:
+            continue
+        yield _Span(x, x + k)
+
+
+def a_gen_helper(xs, k):
+    out = []
+    for w in _windows(xs, k):
+        out.append(w.hi - w.lo)
+    return out
+def b_gen_helper(xs, k):
+    return [(x + k) - x for x in xs if x is not None]
+
+def a_takewhile(xs, lim):
+    import itertools
+    out = []
+    for v in itertools.takewhile(lambda q: q < lim, xs):
+        out.append(v)
+    return out
+def b_takewhile(xs, lim):
+    out = []
+    for v in xs:
+        if not (v < lim):
+            break
+        out.append(v)
+    return out
+
+def a_table(kind, x):
+    fn = _KINDS.get(kind)
+    if fn is None:
+        raise KeyError(kind)
+    return fn(x)
+def b_table(kind, x):
+    if kind == "a":
+        return _double(x)
+    if kind == "b":
+        return _check(x)
+    raise KeyError(kind)
+
+def a_record_methods(p):
+    return _Box.of(p).width
+def b_record_methods(p):
+    return p[1] - p[0]
+
+def a_any_display(p, q, s):
+    return any(v in s for v in (p, q))
+def b_any_display(p, q, s):
+    return p in s or q in s
+
+def a_yield_chain(xs, ys):
+    import itertools
+    yield from itertools.chain(zip(xs, itertools.repeat(None)), zip(itertools.repeat(None), ys))
+def b_yield_chain(xs, ys):
+    for x in xs:
+        yield x, None
+    for y in ys:
+        yield None, y
+
+def a_unroll(obj, f):
+    for name in ("p", "q"):
+        f(getattr(obj, name))
+    return obj
+def b_unroll(obj, f):
+    f(obj.p)
+    f(obj.q)
+    return obj
+
+def a_or_none(xs):
+    return xs or None
+def b_or_none(xs):
+    return xs if xs else None
+
+def a_demorgan(p, q, v):
+    if not (p is None or q is None):
+        return v
+    return 0
+def b_demorgan(p, q, v):
+    if p is not None and q is not None:
+        return v
+    return 0
+
+def a_map_fused(xs, f):
+    return [v.id for v in map(f, xs)]
+def b_map_fused(xs, f):
+    return [f(x).id for x in xs]
+
+def a_cond_list(p, q, c):
+    parts = [p]
+    if c:
+        parts.append(q)
+    return parts
+def b_cond_list(p, q, c):
+    return [p, q] if c else [p]
+
 # --- pairs that must NOT be identified
 def a_neq_filter(xs):
     return [x for x in xs if x is not None]
@@ -175,7 +287,8 @@ def b_neq_order(p, q):
 '''
 
 EQUAL = ["helper", "raise_in_helper", "ite", "single_exit", "loop_append", "dict_fill", "map", "filter", "local_def", "record",
-         "partial", "format", "match", "augadd", "display_append", "dict_update", "slice"]
+         "partial", "format", "match", "augadd", "display_append", "dict_update", "slice", "gen_helper", "takewhile", "table",
+         "record_methods", "any_display", "yield_chain", "unroll", "or_none", "demorgan", "map_fused", "cond_list"]
 DIFFERENT = ["neq_filter", "neq_later_mutation", "neq_order"]
 
 
@@ -191,6 +304,11 @@ def _alpha(t, mp):
             mp.setdefault(lid, f"B{len(mp)}")
     if t and t[0] == "lambda":
         return ("lambda", "*")
+    if t and t[0] == "alloc" and len(t) == 3:
+        mp.setdefault(t[2], f"A{len(mp)}")
+        return ("alloc", t[1], mp[t[2]])
+    if t and t[0] == "and" and isinstance(t[1], tuple):
+        return ("and", tuple(sorted((_alpha(c, mp) for c in t[1]), key=repr)))
     return tuple(_alpha(c, mp) for c in t)
 
 
